@@ -41,7 +41,11 @@ MANIFEST = {
             'fingerprint), and rendering over three namespaces with logging '
             'callables must agree in text, exception class+message and call '
             'log.  &dtml-x; is compared with <dtml-var x html_quote>, '
-            '&dtml.m1.m2-x; with <dtml-var x m1 m2>.',
+            '&dtml.m1.m2-x; with <dtml-var x m1 m2>.  Family spelling: '
+            'if / in / unless / with x 6 spellings of the start argument x '
+            '7 of an else argument x 4 of the end-tag argument, in three '
+            'syntaxes: all three accept (same program, same renderings) or '
+            'all three reject.',
     'note': 'Trusted: the printers of dtmc/ast.py (they define what "the '
             'same template in another syntax" means) and dtmc/fingerprint.py '
             '(fine-grained; blanks inside the raw dtml-let argument text are '
